@@ -39,6 +39,12 @@ package templater
 //@   site (*Template).Parse#0 requires arg1 == v                                                                [C19]
 //@   site (*Template).Parse#0 ghost nParse := nParse + 1
 //@   ensures nParse <= 1                                                                                        [C19]
+// every string is parsed by a template made FROM SCRATCH for it (template.New): one derived from another template
+// ((*Template).New: an "associated" template) shares its namespace of {{define}}d templates, so a definition in one
+// string of one task would be visible - or clash - in every string rendered later in the process
+//@   nosite (*Template).New                                                                                     [C11]
+//@   nosite (*Template).Lookup                                                                                  [C11]
+//@   nosite (*Template).AddParseTree                                                                            [C11]
 // what the engine rendered is handed on byte for byte (a value that was substituted - an argument after --, a
 // shell-quoted value - is not edited afterwards)
 //@   site (*Buffer).String#1 ghost rendered := result
@@ -47,8 +53,14 @@ package templater
 //@   trusted
 //@   modifies github.com/go-task/task/v3/internal/templater.*
 //@ func ReplaceVarWithExtra
-//@   trusted
+//@   trusted frame
 //@   modifies github.com/go-task/task/v3/internal/templater.*
+// "live" (a final value that is stored and handed to the templates AS THE OBJECT IT IS, without the copy every
+// other value gets) is a mark the program puts on its own data (CLI_ARGS, MATCH) and that travels with the
+// variable; templating never confers it. What a reference resolves to is a map or slice that belongs to the
+// caller: marked live it would be one object shared by the task and every concurrently running callee
+//@   ensures v.Ref != "" ==> result.Live == nil                                                                 [C18,C11]
+//@   ensures v.Ref == "" ==> result.Live == v.Live && result.Dir == v.Dir                                       [C18,C11,C19]
 //@ func ReplaceVars
 //@   trusted
 //@   modifies github.com/go-task/task/v3/internal/templater.*
@@ -61,8 +73,11 @@ package templater
 //@   pure
 //@   ensures result.1 == nil ==> result.0 == shQuote(str)                                            [C19]
 //@ func ResolveRef
-//@   trusted
+//@   trusted frame
 //@   modifies github.com/go-task/task/v3/internal/templater.*
+// a reference is parsed by a template made from scratch for it (see ReplaceWithExtra$1)
+//@   nosite (*Template).New                                                                                     [C11]
+//@   nosite (*Template).Lookup                                                                                  [C11]
 // The variables handed to a nested call or dependency are always a NEW Vars object (never the one of the
 // task definition, which concurrent calls share and GetTask writes MATCH into).
 //@ ghost var builtVars *ast.Vars scratch
